@@ -560,6 +560,11 @@ func RootsVisit(v ssa.Value, fe *Feas, visit func(ssa.Value) bool) []ssa.Value {
 		case *ssa.BinOp:
 			walk(x.X)
 			walk(x.Y)
+		case *ssa.Alloc:
+			// pointer to a local (e.g. new(expr)): what it points to is what was stored
+			if !allocStores(x, walk) {
+				out = append(out, v)
+			}
 		default:
 			out = append(out, v)
 		}
